@@ -778,12 +778,36 @@ type StackStore struct {
 }
 
 func (x *Extractor) ResolveStackStores(origin string) []StackStore {
-	m := regexp.MustCompile(`^field:(\w+)\[\*\](?:\.(\w+))?$`).FindStringSubmatch(origin)
+	m := regexp.MustCompile(`^field:(\w+)\[\*\](?:\.(\w+))?(?:\.(\w+))?$`).FindStringSubmatch(origin)
 	if m == nil {
 		return nil
 	}
-	field, sub := m[1], m[2]
+	field, sub, sub2 := m[1], m[2], m[3]
 	var out []StackStore
+	if sub2 != "" {
+		// a field of a struct kept in field `sub` of the entries: what is stored in `sub` is a
+		// struct value (built by a helper), of which field `sub2` is taken
+		for _, fn := range x.W.Funcs(x.Role) {
+			for _, b := range fn.Blocks {
+				for _, ins := range b.Instrs {
+					st, ok := ins.(*ssa.Store)
+					if !ok {
+						continue
+					}
+					fa, ok := st.Addr.(*ssa.FieldAddr)
+					if !ok || structFieldName(fa.X.Type(), fa.Field) != sub || x.isConvPtr(fa.X.Type()) || !x.isElemOfField(fa.X.Type(), field) {
+						continue
+					}
+					if sv, ok := x.eval(st.Val, x.TopEnv(fn)).(StructV); ok {
+						if fv, ok := sv.Fields[sub2]; ok {
+							out = append(out, StackStore{asTmpl(fv), fn})
+						}
+					}
+				}
+			}
+		}
+		return out
+	}
 	for _, fn := range x.W.Funcs(x.Role) {
 		for _, b := range fn.Blocks {
 			for _, ins := range b.Instrs {
